@@ -136,9 +136,7 @@ Fixpoint norm (e : expr) : expr :=
 
 Hypothesis lower_idem : forall c, lower (lower c) = lower c.
 
-(* the separator before a lookup depends only on the container being a dot lookup and on its lookup text *)
-Lemma dot_sep_norm c l : dot_sep (norm c) l = dot_sep c l.
-Proof. destruct c; reflexivity. Qed.
+(* the separator before a lookup depends only on the printed container and on the lookup text *)
 
 (* "printing is a fixed point after one round", on trees *)
 Theorem print_norm : forall e, print lower printable (norm e) = print lower printable e.
@@ -146,7 +144,6 @@ Proof.
   induction e as [n|c l IHc|c l IHc IHl|f ps IHf IHps|a b IHb|o a b IHa IHb|a IHa|a IHa|v|l|b|] using expr_ind';
     cbn [norm print]; try congruence.
   - rewrite map_map. apply map_ext. exact lower_idem.
-  - rewrite IHc, dot_sep_norm. reflexivity.
   - rewrite IHf.
     assert (E : map (print lower printable) (map norm ps) = map (print lower printable) ps).
     { induction IHps as [|x r Hx Hr IH]; [reflexivity|]. cbn [map]. rewrite Hx, IH. reflexivity. }
